@@ -203,7 +203,13 @@ def run(ctx):
                 if re.search(r"FromMeta(>)?::from_list\(", second) and "identity(" not in second:
                     flatten = True
                     continue
-                cands = [nt for nt in D.name_tests if nt[3] is not None and b.dominates(nt[3], blk)]
+                # name tests that hold on EVERY path to the write (or-patterns such as `"a" | "b" =>` hold on some paths only)
+                conds_w = D.conds(blk)
+                always = None
+                for d_ in conds_w:
+                    pos = {m_.group(1) for a_ in d_ for m_ in [re.search(r'PartialEq for str>::eq\(.*, "((?:[^"\\]|\\.)*)"\)=True$', a_)] if m_}
+                    always = pos if always is None else always & pos
+                cands = [nt for nt in D.name_tests if nt[3] is not None and b.dominates(nt[3], blk) and nt[1] in (always or set())]
                 inner = [c for c in cands if all(b.dominates(o[2], c[2]) for o in cands)]
                 cs = {c[1] for c in inner}
                 outer_key = tuple(sorted(c[1] for c in cands if c not in inner))
